@@ -662,8 +662,8 @@ def run(tier, pid="C07"):
             test_every, trjobs = 53, [("tr_exp5.cfg", 4)]
             mc_only = ["tr_mc6.cfg"]
         sample = []
-        for cfg, kw in jobs:
-            rows, uni = mc.tlc_rows(cfg, "C07", rep, **kw)
+        for cfg, rows, uni, r in mc.tlc_rows_pipeline(jobs, "C07"):  # TLC of the next job runs during this replay
+            rep.add_tlc(r, cfg)
             sample += part_pairs(rep, rows, uni, pool, rnd, cfg, test_every)
         part_tests(rep, sample, pool, rnd)
         rep.extra["pairs_run_as_real_tests"] = len(sample)
